@@ -135,7 +135,9 @@ func main() {
 					if g.h > 12 {
 						idx = []uint32{0, 1, 1000}
 					}
-					rebuildAll(c, i, k, idx)
+					if o := drv.Call(func() { rebuildAll(c, i, k, idx) }); o != "ok" {
+						c.Fail(i, "xmss-rebuild-refused-or-faulted", map[string]any{"height": g.h, "hash": g.hf, "symbolic": g.sym, "observed": o})
+					}
 					xmss.VerifSymbolic = false
 					c.Eval(3)
 					c.Nontrivial(3)
